@@ -29,7 +29,7 @@ RULE = ('contents = any subset of the nine signatures (+ FAT look-alike) overlai
         'short files; x allowed_formats (None, singletons, all-but-raw, random subsets) x read-size sequences; the '
         'decision is sampled after every read. non-trivial = at least one signature present or a text/short file; '
         'distinct by (content digest, allowed set, read schedule)')
-REQUIRED_CLAUSES = ['under-warnings-as-errors', 'allowed-respected-with-expected_format', 'interleaved-wrappers', 'zero-length-reads-are-neutral', 'formats-equal-signatures', 'format-decision', 'no-revision', 'only-ImageFormatError',
+REQUIRED_CLAUSES = ['source-hands-out-one-reused-buffer', 'formats-result-owned-by-caller', 'under-warnings-as-errors', 'allowed-respected-with-expected_format', 'interleaved-wrappers', 'zero-length-reads-are-neutral', 'formats-equal-signatures', 'format-decision', 'no-revision', 'only-ImageFormatError',
                     'raw-exclusive', 'detect_file_format', 'fd-balance']
 ASSUMPTIONS = ['signature predicates written from the property text and the layout comments, sharing no code with the inspectors',
                'F1: for text-like content the VMDK text-descriptor match is chunk dependent; vmdk in formats is DONT-CARE '
@@ -98,12 +98,15 @@ def eval_case(ctx, case):
     allowed = case.get('allowed')
     cuts = case['cuts']
     S, raw_ok, f1 = expected(content, allowed)
-    ctx.case((content, tuple(allowed or ()), tuple(cuts), tuple(case.get('empties', ())), bool(case.get('short_reads'))),
+    ctx.case((content, tuple(allowed or ()), tuple(cuts), tuple(case.get('empties', ())), bool(case.get('short_reads')),
+              case.get('carrier')),
              nontrivial=bool(S) or f1 or len(content) < 600)
     ctx.h('signature count', len(S))
     ctx.h('allowed class', 'none' if not allowed else 'singleton' if len(allowed) == 1 else 'subset')
     res = sl.feed_wrapper(content, cuts, allowed=allowed, monitor=False, empties=case.get('empties', ()),
-                          short_reads=case.get('short_reads', False))
+                          short_reads=case.get('short_reads', False), carrier=case.get('carrier', 'bytes'))
+    if case.get('carrier'):
+        ctx.clause('source-hands-out-one-reused-buffer')
     w = res['wrapper']
     if case.get('empties'):
         ctx.clause('zero-length-reads-are-neutral')
@@ -159,6 +162,23 @@ def eval_case(ctx, case):
     if len(seq) > 2 or (len(seq) == 2 and seq[0] is not None) or seq[-1] != res['final']:
         ctx.fail('no-revision', case, {'decision_changes': seq, 'reads': len(traced)})
     ctx.h('decision', str(res['final']))
+    # --- the list handed out by .formats belongs to the caller: emptying / editing it changes no later answer
+    try:
+        handed = w.formats
+    except F.ImageFormatError:
+        handed = None
+    if isinstance(handed, list):
+        ctx.clause('formats-result-owned-by-caller')
+        before = sorted(str(x) for x in handed)
+        if handed:
+            handed.pop()
+        handed.append('edited-by-caller')
+        d2 = sl._decision(w)            # .format first: it must not be looking at the caller's list
+        again = sl._q(lambda: sorted(str(x) for x in w.formats))
+        if again != before or d2 != res['final']:
+            ctx.fail('formats-result-owned-by-caller', case,
+                     {'formats_before': before, 'formats_after_caller_edit': again, 'decision_before': res['final'],
+                      'decision_after': d2})
 
 
 def eval_detect(ctx, case):
@@ -315,6 +335,8 @@ def run(ctx):
                 case = dict(case, empties=sorted({0 if vrng.random() < 0.5 else vrng.randrange(nch), vrng.randrange(nch)}))
             elif v < 0.3:     # a source that returns short reads although 64 KiB were asked for
                 case = dict(case, short_reads=True)
+            elif v < 0.45:    # a source that refills and hands out one and the same buffer object for every read
+                case = dict(case, carrier='bytearray' if v < 0.4 else 'memoryview')
         if ctx.mine(idx):
             ctx.sample(klass, case)
             evaluate(ctx, case)
